@@ -52,6 +52,20 @@ def gen_ebnf(rng):
     return '\n'.join(lines) + '\n', inputs
 
 
+def _find_empty_choice(tree, nn):
+    """name of a rule whose directly empty alternative (<nt>_e) occurs in the tree although it has a nullable non-empty alternative"""
+    if not isinstance(tree, tuple) or not tree:
+        return None
+    head = tree[0]
+    if isinstance(head, str) and head.endswith('_e') and len(tree) == 1 and head[:-2] in nn:
+        return head[:-2]
+    for ch in tree[1:]:
+        r = _find_empty_choice(ch, nn)
+        if r:
+            return r
+    return None
+
+
 class C05(Check):
     ID = 'C05'
     LEVEL = 'exploration'
@@ -88,6 +102,14 @@ class C05(Check):
         mode = rng.choice(['normal', 'normal', 'invert', 'invert', None])
         return {'kind': 'opt', 'g': g, 'inputs': inputs, 'lexer': lexer, 'priority': mode, 'ordered_sets': rng.random() < 0.7}
 
+    def _gen_emp_case(self, rng):
+        g = prio.gen_grammar_emp(rng)
+        inputs = prio.gen_inputs(g, rng, k=5, maxlen=6)
+        if '' not in inputs:
+            inputs.append('')
+        return {'kind': 'emp', 'g': g, 'inputs': inputs, 'lexer': rng.choice(['basic', 'dynamic', 'dynamic_complete']),
+                'priority': rng.choice(['normal', 'normal', 'invert', None]), 'ordered_sets': rng.random() < 0.8}
+
     def _gen_det_case(self, rng):
         if rng.random() < 0.5:
             text, inputs = rng.choice(DET_GRAMMARS)
@@ -105,12 +127,12 @@ class C05(Check):
             nodes_ = [{'hashseed': rng.randrange(1, 1 << 31), 'salt': rng.randrange(1 << 30), 'noise_seed': rng.randrange(1, 1 << 20),
                        'order': rng.sample(range(10), 10), 'salted': rng.random() < 0.7} for _ in range(3)]
             return {'mode': 'nodes', 'cases': cases, 'nodes': nodes_, 'orders': orders[:2]}
-        case = self._gen_opt_case(rng) if r < 0.7 else self._gen_det_case(rng)
+        case = self._gen_opt_case(rng) if r < 0.6 else (self._gen_emp_case(rng) if r < 0.75 else self._gen_det_case(rng))
         return {'mode': 'salts', 'cases': [case], 'orders': orders}
 
     # ------------------------------------------------------------------ execution
     def _lark_case(self, c, strip=False):
-        if c['kind'] == 'opt':
+        if c['kind'] in ('opt', 'emp'):
             text = prio.grammar_text(c['g'], with_priorities=not strip)
             opts = {'lexer': c['lexer'], 'keep_all_tokens': True, 'priority': c['priority'], 'ordered_sets': c['ordered_sets']}
         else:
@@ -190,6 +212,21 @@ class C05(Check):
             if c['kind'] == 'det':
                 if flat[0][0] == 'ok':
                     nontrivial = True
+                continue
+            if c['kind'] == 'emp':
+                # the statement's built-in precedence: a directly empty alternative of a rule is chosen only where no non-empty
+                # alternative of that rule matches the same (empty) span, i.e. never for a rule that has a nullable non-empty alternative
+                if flat[0][0] != 'ok':
+                    continue
+                nn = prio.nullable_nonempty_alternatives(c['g'])
+                for oi, r in enumerate(flat):
+                    bad = _find_empty_choice(prio.from_json(r[1]), nn)
+                    if bad:
+                        return Violation('empty-alternative-chosen-over-nullable-alternative', input=s, order=labels[oi], rule=bad, got=r[1],
+                                         grammar=lc['text'], options=lc['options']), nontrivial
+                if nn:
+                    nontrivial = True
+                    out.count('inputs-on-grammars-with-competing-empty-alternatives')
                 continue
             # ---- reference model: all derivations with priority sums
             try:
